@@ -50,6 +50,21 @@ var c21Peers = []c21Peer{
 	{"d", c21Addr(3, 0x03)},
 	{"e", c21Addr(4, 0x04)},
 	{"f", c21Addr(44, 0x05)},
+	// g = f with bit 31 flipped as well: proximity 31. With 32 bins f and g share the
+	// capped last bin and differ in a single bit of its "common" prefix bytes only
+	// (byte 3), nowhere else.
+	{"g", boson.NewAddress(func() []byte {
+		b := append([]byte{}, c21Addr(44, 0x05).Bytes()...)
+		b[3] ^= 0x01
+		return b
+	}())},
+	// h, i: the same pair one byte earlier (proximities 12 and 7; one capped bin with 8 bins)
+	{"h", c21Addr(12, 0x06)},
+	{"i", boson.NewAddress(func() []byte {
+		b := append([]byte{}, c21Addr(12, 0x06).Bytes()...)
+		b[0] ^= 0x01
+		return b
+	}())},
 }
 
 // never added: used for negative Exists / Remove-of-absent probes (proximity 3).
@@ -87,6 +102,8 @@ var c21Batches = func() [][]int {
 			[]int{x, d, x, s},     // trailing same-bin address after the repeat
 		)
 	}
+	// last-bin neighbour pairs (f,g) and (h,i)
+	out = append(out, []int{5, 6}, []int{6, 5, 6}, []int{0, 6, 5}, []int{7, 8}, []int{8, 7, 8}, []int{0, 8, 7})
 	return out
 }()
 
@@ -134,7 +151,10 @@ var errC21Callback = errors.New("c21 callback error")
 
 func TestVerifC21Ops(t *testing.T) {
 	depth := mc.Pick(5, 8)
-	maxBinsChoices := []int{4, 2, 32}
+	maxBinsChoices := []int{4, 2, 32, 32, 8}
+	// peers offered per choice: the classic alphabet a..f, then the last-bin neighbour pairs with
+	// one shallow peer (the full product with a..f does not fit the quick tier)
+	activeChoices := [][]int{{0, 1, 2, 3, 4, 5}, {0, 1, 2, 3, 4, 5}, {0, 1, 2, 3, 4, 5}, {0, 5, 6}, {0, 7, 8}}
 	np := len(c21Peers)
 	nops := 2*np + len(c21Batches)
 
@@ -150,12 +170,34 @@ func TestVerifC21Ops(t *testing.T) {
 	mc.Run(t, mc.Config{ID: "C21", Name: "C21-opseq", MaxDev: -1, Params: map[string]interface{}{
 		"depth":                     depth,
 		"maxBins":                   maxBinsChoices,
-		"addresses":                 "a,b: proximity 0; c: 1; d: 3; e: 4; f: 44 (32-byte addresses, non-zero base)",
-		"operations":                append([]string{"Add(x) x in a..f", "Remove(x) x in a..f"}, batchNames...),
-		"observed_after_every_step": "Exists(a..f,ghost), Length, BinSize/BinPeers(0..maxBins+1, 255), ShallowestEmpty, EachBin and EachBinRev with callbacks {collect, stop at k, next-bin at k, next-bin always, error at k} for every k",
+		"addresses":                 "a,b: proximity 0; c: 1; d: 3; e: 4; f: 44; g: 31, equal to f except for bit 31; h: 12; i: 7, equal to h except for bit 7 (32-byte addresses, non-zero base); choices 1-3 offer a..f, choice 4 (32 bins) a,f,g, choice 5 (8 bins) a,h,i",
+		"operations":                append([]string{"Add(x) x in a..g", "Remove(x) x in a..g"}, batchNames...),
+		"observed_after_every_step": "Exists(a..g,ghost), Length, BinSize/BinPeers(0..maxBins+1, 255), ShallowestEmpty, EachBin and EachBinRev with callbacks {collect, stop at k, next-bin at k, next-bin always, error at k} for every k",
 		"pruning":                   "canonical state = maxBins + ordered bin contents + bin capacities",
 	}}, func(x *mc.X) {
-		maxBins := maxBinsChoices[x.Choose(len(maxBinsChoices))]
+		mbi := x.Choose(len(maxBinsChoices))
+		maxBins := maxBinsChoices[mbi]
+		isActive := map[int]bool{}
+		for _, i := range activeChoices[mbi] {
+			isActive[i] = true
+		}
+		var menu []int
+		for op := 0; op < nops; op++ {
+			ok := true
+			switch {
+			case op < np:
+				ok = isActive[op]
+			case op < 2*np:
+				ok = isActive[op-np]
+			default:
+				for _, j := range c21Batches[op-2*np] {
+					ok = ok && isActive[j]
+				}
+			}
+			if ok {
+				menu = append(menu, op)
+			}
+		}
 		s := New(maxBins, boson.NewAddress(append([]byte{}, c21Base...)))
 		ref := map[int]bool{} // index into c21Peers -> member
 		x.Logf("New(maxBins=%d)", maxBins)
@@ -422,7 +464,7 @@ func TestVerifC21Ops(t *testing.T) {
 
 		observe("initially", "new")
 		for step := 0; step < depth; step++ {
-			op := x.Choose(nops)
+			op := menu[x.Choose(len(menu))]
 			var opk string
 			when := fmt.Sprintf("after step %d", step+1)
 			switch {
